@@ -42,3 +42,69 @@ func (*TumblingWindow).dropLastRow
   ensures prefix: forall(i, 0, len(tw.data), tw.data[i] == old(tw.data)[i])
   ensures empty: len(old(tw.data)) == 0 ==> len(tw.data) == 0
 @*/
+
+/*@
+recfunc rowsIn((a (Array Int S_types.Row)) (n Int) (lo Int) (hi Int) (slot Int)) Slice_S_types.Row := (ite (<= n 0) (mkSlice_S_types.Row ((as const (Array Int S_types.Row)) (mkS_types.Row (- 62135596800000000000) VNil 0)) 0 false) (let ((r (@rowsIn a (- n 1) lo hi slot)) (x (select a (- n 1)))) (ite (and (<= lo (S_types.Row.Timestamp x)) (< (S_types.Row.Timestamp x) hi)) (mkSlice_S_types.Row (store (Slice_S_types.Row.arr r) (Slice_S_types.Row.len r) (mkS_types.Row (S_types.Row.Timestamp x) (S_types.Row.Data x) slot)) (+ (Slice_S_types.Row.len r) 1) false) r)))
+
+recfunc rowsOut((a (Array Int S_types.Row)) (n Int) (lo Int) (hi Int)) Slice_S_types.Row := (ite (<= n 0) (mkSlice_S_types.Row ((as const (Array Int S_types.Row)) (mkS_types.Row (- 62135596800000000000) VNil 0)) 0 false) (let ((r (@rowsOut a (- n 1) lo hi)) (x (select a (- n 1)))) (ite (and (<= lo (S_types.Row.Timestamp x)) (< (S_types.Row.Timestamp x) hi)) r (mkSlice_S_types.Row (store (Slice_S_types.Row.arr r) (Slice_S_types.Row.len r) x) (+ (Slice_S_types.Row.len r) 1) false))))
+
+func (*TumblingWindow).extractWindowDataLocked
+  props C01
+  held tw.mu
+  requires tw.currentSlot != nil ==> tw.currentSlot.Start != nil && tw.currentSlot.End != nil
+  modifies tw.data
+  ensures no-slot: tw.currentSlot == nil ==> len(result) == 0 && tw.data == old(tw.data)
+  ensures batch: tw.currentSlot != nil && len(rowsIn(arr(old(tw.data)), len(old(tw.data)), *tw.currentSlot.Start, *tw.currentSlot.End, tw.currentSlot)) > 0 ==> result == rowsIn(arr(old(tw.data)), len(old(tw.data)), *tw.currentSlot.Start, *tw.currentSlot.End, tw.currentSlot)
+  ensures kept: tw.currentSlot != nil && len(rowsIn(arr(old(tw.data)), len(old(tw.data)), *tw.currentSlot.Start, *tw.currentSlot.End, tw.currentSlot)) > 0 ==> tw.data == rowsOut(arr(old(tw.data)), len(old(tw.data)), *tw.currentSlot.Start, *tw.currentSlot.End)
+  ensures empty: tw.currentSlot != nil && len(rowsIn(arr(old(tw.data)), len(old(tw.data)), *tw.currentSlot.Start, *tw.currentSlot.End, tw.currentSlot)) == 0 ==> len(result) == 0 && tw.data == old(tw.data)
+  loop 1 invariant resultData == rowsIn(arr($s), $i, *tw.currentSlot.Start, *tw.currentSlot.End, tw.currentSlot)
+  loop 2 invariant newData == rowsOut(arr($s), $i, *tw.currentSlot.Start, *tw.currentSlot.End)
+@*/
+
+/*@
+guarded_by Watermark.mu: currentWatermark, lastSentWatermark, maxEventTime, lastEventTime
+monitor Watermark.mu inv wmInv
+
+pred wmInv(wm) := wm.lastSentWatermark <= wm.currentWatermark && wm.maxEventTime >= ZERO_T
+  && (wm.maxOutOfOrderness >= 0 && zero(wm.maxEventTime) ==> zero(wm.currentWatermark))
+  && (wm.maxOutOfOrderness >= 0 && !zero(wm.maxEventTime) && wm.idleTimeout <= 0 ==> zero(wm.currentWatermark) || wm.currentWatermark <= wm.maxEventTime - wm.maxOutOfOrderness)
+
+func (*Watermark).sendWatermarkLocked
+  props C02
+  held wm.mu
+  requires wm.lastSentWatermark <= wm.currentWatermark
+  modifies wm.lastSentWatermark
+  ensures sent-is-current: wm.lastSentWatermark == old(wm.lastSentWatermark) || wm.lastSentWatermark == wm.currentWatermark
+  ensures bounded: wm.lastSentWatermark <= wm.currentWatermark
+  ensures monotone: wm.lastSentWatermark >= old(wm.lastSentWatermark)
+
+func (*Watermark).UpdateEventTime
+  props C01 C02
+  acquires wm.mu
+  modifies wm.lastEventTime, wm.maxEventTime, wm.currentWatermark, wm.lastSentWatermark
+  ensures monotone: wm.currentWatermark >= old(wm.currentWatermark)
+  ensures max-monotone: zero(old(wm.maxEventTime)) || wm.maxEventTime >= old(wm.maxEventTime)
+  ensures future-ignored: eventTime > now() + wm.maxOutOfOrderness + 86400000000000 ==> wm.maxEventTime == old(wm.maxEventTime) && wm.currentWatermark == old(wm.currentWatermark)
+  ensures accepted: eventTime <= now() + wm.maxOutOfOrderness + 86400000000000 && (zero(old(wm.maxEventTime)) || eventTime > old(wm.maxEventTime)) ==> wm.maxEventTime == eventTime && wm.currentWatermark == ite(eventTime - wm.maxOutOfOrderness > old(wm.currentWatermark), eventTime - wm.maxOutOfOrderness, old(wm.currentWatermark))
+  ensures not-newer: !zero(old(wm.maxEventTime)) && eventTime <= old(wm.maxEventTime) ==> wm.maxEventTime == old(wm.maxEventTime) && wm.currentWatermark == old(wm.currentWatermark)
+  ensures inv: wmInv(wm)
+
+func (*Watermark).update
+  props C02
+  acquires wm.mu
+  modifies wm.currentWatermark, wm.lastSentWatermark
+  ensures monotone: wm.currentWatermark >= old(wm.currentWatermark)
+  ensures no-idle: wm.idleTimeout <= 0 ==> wm.currentWatermark == old(wm.currentWatermark) || wm.currentWatermark == wm.maxEventTime - wm.maxOutOfOrderness
+  ensures untouched-before-first-event: zero(wm.maxEventTime) ==> wm.currentWatermark == old(wm.currentWatermark)
+  ensures inv: wmInv(wm)
+
+func (*Watermark).GetCurrentWatermark
+  props C02
+  acquires wm.mu
+  ensures result == wm.currentWatermark
+
+func (*Watermark).IsEventTimeLate
+  props C01 C02
+  acquires wm.mu
+  ensures late-iff-below-watermark: result == (!zero(wm.currentWatermark) && eventTime < wm.currentWatermark)
+@*/
